@@ -1,7 +1,7 @@
 """Unit `global_cache`: GlobalCache<R> (cachelito-core/src/global_cache.rs) under the sequential projection
 (R1: locks erased, R2: receiver splitting) with the helper functions of utils.rs it calls."""
 from extract.rules import R, R4, R5, R1_TYPES
-from contracts.units.engine_common import (COMMON, wf_pre, get_ensures, incr_ensures, evict_requires, evict_ensures, insert_ensures, CFG_FRAME)
+from contracts.units.engine_common import (COMMON, wf_pre, get_ensures, incr_ensures, evict_requires, evict_ensures, insert_ensures, CFG_FRAME, insertm_requires, insertm_ensures)
 from contracts.units import utils as U
 
 G = 'cachelito-core/src/global_cache.rs'
@@ -21,6 +21,8 @@ pub fn find_arc_eviction_key<R>(map: &HashMap<String, CacheEntry<R>>, keys: Vec<
     ensures
         res is Some ==> map@.contains_key(res->Some_0) && pairs_have_key(keys@, res->Some_0),
         res is None ==> forall|k: String| #[trigger] map@.contains_key(k) ==> !pairs_have_key(keys@, k),
+        // ground instance of the clause above (front of the queue), stated so that the term is available to callers
+        res is None && keys@.len() > 0 ==> !map@.contains_key(*keys@[0].1),
 { unimplemented!() }
 
 #[verifier::external_body]
@@ -28,6 +30,8 @@ pub fn find_tlru_eviction_key<R>(map: &HashMap<String, CacheEntry<R>>, keys: Vec
     ensures
         res is Some ==> map@.contains_key(res->Some_0) && pairs_have_key(keys@, res->Some_0),
         res is None ==> forall|k: String| #[trigger] map@.contains_key(k) ==> !pairs_have_key(keys@, k),
+        // ground instance of the clause above (front of the queue), stated so that the term is available to callers
+        res is None && keys@.len() > 0 ==> !map@.contains_key(*keys@[0].1),
 { unimplemented!() }
 
 /// R4: `o.iter().enumerate()` -> the vector of (index, &element) pairs the iterator yields
@@ -61,5 +65,29 @@ UNIT = dict(
                ensures=[('front_evicted', 'evicted(old(map)@, old(o)@, map_write@, o@, old(o)@[0])')],
                decreases='o@.len()')}),
         fn('insert', rules=R4, requires=wf_pre(M), ensures=insert_ensures(M)),
+        fn('insert_with_memory', impl=IMPL_MEM, impl_rules=IMPL_RULES, rules=R4 + R5,
+           requires=insertm_requires(M), ensures=insertm_ensures(M),
+           loops={
+               0: dict(
+                   invariant=[
+                       ('wf', 'wf(self.map@, o@)'),
+                       ('cfg', 'self.limit == old(self).limit && self.max_memory == old(self).max_memory && self.policy == old(self).policy && self.ttl == old(self).ttl && self.frequency_weight == old(self).frequency_weight && self.stats == old(self).stats && self.max_memory == Some(max_mem)'),
+                       ('counters', 'freq_ok(self.map@)'),
+                       ('pre_facts', 'wf(old(self).map@, old(self).order@) && mem_total(old(self).map@.remove(s2s(key)), rm1(old(self).order@, s2s(key))) + value.mem() <= usize::MAX'),
+                       ('submap', 'forall|x: String| #[trigger] self.map@.contains_key(x) ==> (if x == s2s(key) { self.map@[x].value == value && self.map@[x].frequency == 0 } else { old(self).map@.contains_key(x) && self.map@[x] == old(self).map@[x] })'),
+                       ('total_bounded', 'mem_total(self.map@, o@) <= mem_total(old(self).map@.remove(s2s(key)), rm1(old(self).order@, s2s(key))) + value.mem()'),
+                       ('no_needless', 'mem_total(old(self).map@.remove(s2s(key)), rm1(old(self).order@, s2s(key))) + value.mem() <= max_mem ==> o@ == touch(old(self).order@, s2s(key)) && self.map@.dom() == old(self).map@.dom().insert(s2s(key))'),
+                       ('oldest_first', '(self.policy is FIFO || self.policy is LRU) ==> is_suffix(o@, touch(old(self).order@, s2s(key)))'),
+                       ('shrinks', 'o@.len() <= touch(old(self).order@, s2s(key)).len()'),
+                   ],
+                   ensures=[('fits', 'mem_total(self.map@, o@) <= max_mem')],
+                   decreases='o@.len()'),
+               1: dict(
+                   invariant_except_break=[('nothing_popped', '!successfully_evicted && map_write@ == m_in && o@ == o_in')],
+                   invariant=[('wf_in', 'wf(m_in, o_in) && o_in.len() > 0')],
+                   ensures=[('front_evicted', 'successfully_evicted && evicted(m_in, o_in, map_write@, o@, o_in[0])')],
+                   decreases='o@.len()'),
+           },
+           hints=[(('before_loop', 1), 'snapshot', 'let ghost m_in = map_write@; let ghost o_in = o@;')]),
     ],
 )
